@@ -243,6 +243,7 @@ def w1(model: Model, rep: Report):
                 fns.extend(fs)
         fns.extend(m.functions.values())          # helpers shared by several factories position components as well
     has_site = {}
+    helper_params: Dict[FunctionInfo, Set[str]] = {}
     for fn in fns:
         sites = [n for n in ast.walk(fn.node) if isinstance(n, ast.Call) and isinstance(n.func, ast.Attribute) and n.func.attr == "construct_transform"]
         has_site[fn] = bool(sites)
@@ -251,7 +252,7 @@ def w1(model: Model, rep: Report):
             kw = {k.arg: k.value for k in call.keywords}
             tcv = kw.get("time_component", call.args[1] if len(call.args) > 1 else None)
             idv = kw.get("identifier", call.args[0] if call.args else None)
-            ok, why = _factory_site_ok(fn, call, tcv, idv)
+            ok, why = _factory_site_ok(fn, call, tcv, idv, helper_params)
             rep.check(ok, "C18.W1", f"{fn.qualname}[construct_transform]", f"{fn.module.relpath}:{call.lineno}", found=norm_stmt(call) if ok else why, required="identifier and time component both taken from the drawn operation",
                       what="a draw component is positioned with another operation's time or channel: " + why, detail="factory:" + (why or "ok"))
     # factories that position their component through a shared helper: the helper's sites were checked above; the factory must hand ITS operation to the helper
@@ -273,11 +274,26 @@ def w1(model: Model, rep: Report):
                         changed = True
                         # the operation handed on is the caller's own operation parameter
                         op_params = [a.arg for a in fn.node.args.args if a.arg == "operation"]
-                        passed = {k.arg: k.value for k in n.keywords}.get("operation", n.args[0] if n.args else None)
+                        g_ = [g for g in by_name.get(nm, []) if g in reach][0]
+                        g_params = [a.arg for a in g_.node.args.args if not (g_.cls is not None and a.arg == g_.self_name)]
+                        kw_ = {k.arg: k.value for k in n.keywords}
+
+                        def bound_to(pname, default_pos=None):
+                            if pname in kw_:
+                                return kw_[pname]
+                            i_ = g_params.index(pname) if pname in g_params else default_pos
+                            return n.args[i_] if i_ is not None and i_ < len(n.args) else None
+                        passed = bound_to("operation", 0)
+                        # qubits handed next to the operation (the helper builds the identifier from them) are read off the caller's own operation
+                        for hp_ in sorted(helper_params.get(g_, ())):
+                            hv_ = bound_to(hp_)
+                            if op_params and (hv_ is None or not (_names(hv_) and _names(hv_) <= {"operation"})):
+                                rep.fail("C18.W1", f"{fn.qualname}[{nm}:{hp_}]", f"{fn.module.relpath}:{n.lineno}", found=norm_stmt(n), required=f"{hp_} taken from the drawn operation",
+                                         what="a draw component is positioned on a qubit that is not read off the operation it draws", detail=f"helper-param:{fn.name}:{hp_}")
                         if op_params and not (isinstance(passed, ast.Name) and passed.id == "operation"):
                             rep.fail("C18.W1", f"{fn.qualname}[{nm}]", f"{fn.module.relpath}:{n.lineno}", found=norm_stmt(n), required="the drawn operation itself is handed to the positioning helper",
                                      what="a draw component is positioned with another operation than the one it draws", detail="factory:helper-arg")
-                        break
+                        # (no break: every call of a positioning helper in this function is a site)
     n_fact = len([fn for fn in reach if fn.cls is not None and fn.name == "construct"])
     rep.floor("draw factories that position their component from the drawn operation", n_fact, 20)
     rep.analysed["C18.W1 construct_transform call sites"] = n_sites
@@ -332,7 +348,7 @@ def _enclosing_comp(root: ast.AST, comp: ast.comprehension) -> ast.AST:
     return root
 
 
-def _factory_site_ok(fn: FunctionInfo, call: ast.Call, tcv: Optional[ast.expr], idv: Optional[ast.expr]) -> Tuple[bool, str]:
+def _factory_site_ok(fn: FunctionInfo, call: ast.Call, tcv: Optional[ast.expr], idv: Optional[ast.expr], helper_params: Optional[dict] = None) -> Tuple[bool, str]:
     if tcv is None or idv is None:
         return False, "identifier or time component missing"
     if not isinstance(tcv, ast.Name):
@@ -369,6 +385,7 @@ def _factory_site_ok(fn: FunctionInfo, call: ast.Call, tcv: Optional[ast.expr], 
                 if isinstance(t, ast.Name):
                     assigned.setdefault(t.id, []).append(n.value)
     uses_op = [False]
+    via_param = [False]
 
     def derived(e: ast.AST, depth: int = 0) -> Optional[str]:
         """None when every name in ``e`` comes from the drawn operation (or is an allowed global); otherwise the offending name"""
@@ -386,12 +403,17 @@ def _factory_site_ok(fn: FunctionInfo, call: ast.Call, tcv: Optional[ast.expr], 
                 if bad_ is None:
                     continue
                 return bad_
+            if nm in params and fn.cls is None and helper_params is not None:
+                # a module-level positioning helper that is handed the qubit next to the operation: whether that qubit belongs to the operation is decided at its callers
+                helper_params.setdefault(fn, set()).add(nm)
+                via_param[0] = True
+                continue
             return nm
         return None
     bad = derived(idv)
     if bad is not None:
         return False, f"identifier {ast.unparse(idv)} uses '{bad}', which is not derived from the drawn operation"
-    if not uses_op[0]:
+    if not uses_op[0] and not via_param[0]:
         return False, f"identifier {ast.unparse(idv)} does not come from the drawn operation"
     return True, ""
 
